@@ -128,8 +128,10 @@ func H_C07_pipeline_other_type() {
 	// every mutator addressed at (type t, pipeline id) leaves the same-id pipeline of another type alone
 	switch symLen(0, 2) {
 	case 0:
+		// ... and is decided without looking at it: whatever policy the other type's pipeline has
 		d := s.symDefinition(L)
-		s.b.RegisterPipeline(d.def, d.opts...)
+		err := s.b.RegisterPipeline(d.def, d.opts...)
+		verifAssert((err == nil) == d.specOK, "C07.othertype.decision-ignores-other-types")
 	case 1:
 		s.b.RemovePipeline(s.t, s.p.id)
 	case 2:
